@@ -34,13 +34,15 @@ MUT = {"C20": [
     ("refill-keeps-old-entries", "history mutation (second fill)", [(TOC, "        # Clean the old index-body\n        self.body = None\n        index_body = self.body\n",
                                                                    "        # Clean the old index-body\n        if index_body is None:\n            self.body = None\n        index_body = self.body\n        if title is not None:\n            index_body.delete(title)\n")]),
     ("number-mod-10", "boundary mutation (tenth heading of a level)", [(TOC, "return \".\".join(str(x) for x in numbers) + \".\"\n\n    def fill", "return \".\".join(str(x % 10) for x in numbers) + \".\"\n\n    def fill")]),
-    ("entry-text-without-children", "mutation (only headings with spans / white-space elements)", [(TOC, "{header.inner_text}", "{header.text}")]),
+    ("entry-text-without-children", "mutation (only headings with spans / white-space elements)", [(TOC, "{heading_plain_text(header)}", "{header.text}")]),
+    ("link-target-shown", "mutation of the heading text (only headings with a hyperlink)", [(TOC, "            result.append(heading_plain_text(child))", "            result.append(str(child) if tag == \"text:a\" else heading_plain_text(child))")]),
+    ("note-not-skipped", "mutation of the heading text (only headings with a footnote)", [(TOC, 'elif tag not in ("text:note", "office:annotation", "office:annotation-end"):', 'elif tag not in ("office:annotation", "office:annotation-end"):')]),
     ("tool-depth-ge", "mutation in the second site (scripts/headers.py)", [(HDR, "if level is None or level > depth:", "if level is None or level >= depth:")]),
     ("tool-no-delete-deeper", "two sites disagree (tool only)", [(HDR, "    while idx in level_indexes:\n        del level_indexes[idx]\n        idx += 1\n", "")]),
     ("rewrite-list-cleanup", "behaviour-preserving rewrite", [(TOC, "        idx = level + 1\n        while idx in level_indexes:\n            del level_indexes[idx]\n            idx += 1\n        return \".\".join(str(x) for x in numbers) + \".\"\n\n    def fill",
                                                               "        for deeper in sorted(k for k in level_indexes if k > level):\n            level_indexes.pop(deeper)\n        return \".\".join(map(str, numbers)) + \".\"\n\n    def fill")]),
     ("rewrite-fill-locals", "behaviour-preserving rewrite", [(TOC, "        outline_level = self.outline_level or 10\n", "        wanted = self.outline_level\n        outline_level = 10 if not wanted else wanted\n"),
-                                                             (TOC, "            paragraph = Paragraph(f\"{number_str} {header.inner_text}\")", "            entry_text = number_str + \" \" + header.inner_text\n            paragraph = Paragraph(entry_text)")]),
+                                                             (TOC, "            paragraph = Paragraph(f\"{number_str} {heading_plain_text(header)}\")", "            entry_text = number_str + \" \" + heading_plain_text(header)\n            paragraph = Paragraph(entry_text)")]),
 ], "C13": []}
 
 
